@@ -282,10 +282,19 @@ def parser():
     return _p[0]
 
 
-def call(c, args=None):
-    """-> ('val', v) | ('err', code) | ('raise', code) ; raise only distinguished on the direct path"""
+def call(c, args=None, tup=False):
+    """-> ('val', v) | ('err', code) | ('raise', code) ; raise only distinguished on the direct path.  tup: every top-level array
+    argument is handed over as a Python TUPLE (a host variable holding a tuple, a host function doing `return a, b, c`)"""
     e = errs()
     args = c['args'] if args is None else args
+    if tup:
+        cc = dict(c, args=args, via='var')
+        text, variables = formula_of(cc)
+        p = parser()
+        for k, v in variables.items():
+            p.set_variable(k, tuple(v) if isinstance(v, list) else v)
+        r = p.parse(text)
+        return ('err', r['error']) if r['error'] is not None else ('val', r['result'])
     if c['via'] == 'fn':
         common.load_repo()
         import hotxlfp.formulas as F
@@ -313,6 +322,8 @@ def impl(c):
     out = {'r': call(c)}
     if 'args2' in c:
         out['r2'] = call(c, c['args2'])
+    if c['kind'] == 'stat' and c.get('via') != 'lit' and any(isinstance(a, list) for a in c['args']) and not has_expr(c['args']):
+        out['r3'] = call(c, tup=True)
     return out
 
 
@@ -672,6 +683,8 @@ def oracle(c, ans):
                     return '%s gives %r; the textbook definition gives %s' % (show(c), res, show_exp(exp))
             except NoDemand:
                 pass
+            if 'r3' in ans and not same_result(res, ans['r3'], dyadic(c) and fn in EXACT and (fn != 'PRODUCT' or all_ints(c)), scale):
+                return '%s gives %r but the same call with its arrays handed over as tuples gives %r' % (show(c), res, ans['r3'])
             if 'args2' in c:
                 r2 = ans['r2']
                 pair_exact = dyadic(c) and fn in EXACT and (fn != 'PRODUCT' or all_ints(c))
